@@ -280,6 +280,7 @@ static struct {
     int cuts;               /* every single cut for streams longer than nfull (0: one piece and trickle only) */
     int bigtrickle;         /* 1-byte trickle of a 65539-byte stream */
     int mutset;             /* hsmut: 0 reduced, 1 full mutation set */
+    int prefix;             /* frames: every stream is preceded by one well-formed frame of this many bytes */
     int tls, bytestream;
 } C;
 
@@ -305,7 +306,10 @@ static void cfg_parse(const char *p)
     C.cuts = (int)param_int(p, "cuts", 1);
     C.bigtrickle = (int)param_int(p, "bigtrickle", 0);
     C.mutset = (int)param_int(p, "mutset", 1);
-    C.tls = !strcmp(C.tp, "tls") || !strcmp(C.tp, "btls");
+    C.prefix = (int)param_int(p, "prefix", 0);
+    if (C.prefix < 0 || C.prefix > 65535)
+        C.prefix = 0;
+    C.tls = !strcmp(C.tp, "tls") || !strcmp(C.tp, "btls") || !strcmp(C.tp, "utls");
     C.bytestream = !strcmp(C.tp, "btcp") || !strcmp(C.tp, "btls");
     if (C.nfull > 16)
         C.nfull = 16;
@@ -376,6 +380,24 @@ static void stream_build(const struct stream *s)
         g_sn += sz;
         g_bnd[g_nbnd++] = (uint32_t)g_sn;
     }
+}
+
+/* the stream of a case: with prefix=N (family frames) one well-formed frame of N bytes goes ahead of it */
+static size_t g_pre;
+
+static void stream_build_case(const struct stream *s)
+{
+    g_pre = 0;
+    if (C.prefix > 0 && C.fam == FAM_FRAMES && s->n < MAXITEMS) {
+        struct stream t;
+        t.n = s->n + 1;
+        t.it[0] = (struct item){ 'L', (uint32_t)C.prefix, 0 };
+        for (int i = 0; i < s->n; i++)
+            t.it[i + 1] = s->it[i];
+        stream_build(&t);
+        g_pre = 4 + (size_t)C.prefix;
+    } else
+        stream_build(s);
 }
 
 static int stream_is_big(const struct stream *s) { return stream_size(s) > 4096; }
@@ -511,6 +533,8 @@ static void kase_print(char *b, size_t n, const struct kase *k)
             o += (size_t)snprintf(b + o, n - o, "%s%u", i ? "-" : "", k->cuts[i]);
     }
     o += (size_t)snprintf(b + o, n - o, ",end=%s", end_name[k->end]);
+    if (C.prefix && C.fam == FAM_FRAMES)
+        o += (size_t)snprintf(b + o, n - o, ",prefix=%d", C.prefix);
     if (C.tls)
         snprintf(b + o, n - o, ",certs=%s", C.certs);
 }
@@ -803,7 +827,8 @@ struct shm {
     uint64_t cases, calls, checked, findings, msgs_delivered, bytes_fed, segments;
     uint64_t outcome[NOUT];            /* first terminal result per case */
     int64_t max_growth_xcm, max_growth_all, max_peak_hs;
-    uint64_t hs_peer_ok, hs_xcm_ok, identity_skipped, bystander_checks;
+    uint64_t hs_peer_ok, hs_xcm_ok, identity_skipped, bystander_checks, residual_checks;
+    int64_t max_resid_xcm, max_resid_ssl;
     int nsig;
     struct { char sig[200]; uint64_t n; } sig[MAXSIG];
     int internal_err;
@@ -1545,7 +1570,7 @@ static void probes(int *send_rc, int *send_errno)
 /* frames, ctfrag, rawinj */
 static void run_stream_case(const struct kase *k)
 {
-    stream_build(&k->st);
+    stream_build_case(&k->st);
     if (open_conn() < 0)
         return;
     if (C.tls) {
@@ -1625,7 +1650,13 @@ static void run_stream_case(const struct kase *k)
     } else {
         size_t pos = 0;
         int ci = 0;
-        if (g_sn == 0 && k->end != END_SILENCE && k->end != END_LATECLOSE) {
+        if (g_pre) {
+            /* the large well-formed frame first, in one piece; the case's segmentation applies to what follows */
+            feed_plain(g_sb, g_pre);
+            pos = g_fed = g_pre;
+            drain();
+        }
+        if (g_sn == g_pre && k->end != END_SILENCE && k->end != END_LATECLOSE) {
             do_end(k->end);
             early_closed = 1;
             drain();
@@ -1635,7 +1666,7 @@ static void run_stream_case(const struct kase *k)
             if (k->segkind == SEG_TRICKLE)
                 nxt = pos + (size_t)k->trickle;
             else
-                nxt = ci < k->ncuts ? k->cuts[ci++] : g_sn;
+                nxt = ci < k->ncuts ? g_pre + k->cuts[ci++] : g_sn;
             if (nxt > g_sn || nxt <= pos)
                 nxt = g_sn;
             feed_plain(g_sb + pos, nxt - pos);
@@ -1957,6 +1988,34 @@ static void bystander_check(void)
         internal("the bystander connection could not be re-established");
 }
 
+/* after the connection has been closed (xcm_close on the XCM side, close on the raw side, the server socket
+   kept): everything allocated inside XCM calls for this connection must have been given back */
+static void judge_residual(void)
+{
+    if (g_conn)
+        return;
+    S->residual_checks++;
+    if (l_live[0] > S->max_resid_xcm)
+        S->max_resid_xcm = l_live[0];
+    if (l_live[1] > S->max_resid_ssl)
+        S->max_resid_ssl = l_live[1];
+    if (l_live[0] != 0) {
+        char sig[200];
+        snprintf(sig, sizeof sig, "C07/memory-left-behind-after-close/class=xcm%s/tp=%s", g_famtag, C.tp);
+        finding(sig, "after xcm_close of the connection that received this input, %lld bytes that the library had allocated "
+                "for it (its own malloc/realloc calls made inside XCM calls on this connection) are still allocated: every "
+                "such connection makes the receiving process grow", (long long)l_live[0]);
+    } else if (l_live[1] > 2048) {
+        char sig[200];
+        snprintf(sig, sizeof sig, "C07/memory-left-behind-after-close/class=openssl%s/tp=%s", g_famtag, C.tp);
+        finding(sig, "after xcm_close of the connection that received this input, %lld bytes that OpenSSL had allocated inside "
+                "XCM calls on this connection are still allocated", (long long)l_live[1]);
+    }
+    if (g_verbose)
+        vlog("after xcm_close: %lld bytes of XCM's own allocations and %lld bytes of OpenSSL's made inside XCM calls for "
+             "this connection are still allocated", (long long)l_live[0], (long long)l_live[1]);
+}
+
 static void run_case(const struct kase *k)
 {
     case_reset();
@@ -1971,6 +2030,7 @@ static void run_case(const struct kase *k)
     else
         run_stream_case(k);
     S->cases++;
+    judge_residual();
     bystander_check();
 }
 
@@ -2101,7 +2161,8 @@ static void print_stats(uint64_t a, uint64_t b)
           "\"findings\":%llu,\"msgs_delivered\":%llu,\"bytes_fed\":%llu,\"segments\":%llu,"
           "\"out_eproto\":%llu,\"out_closed\":%llu,\"out_eagain\":%llu,\"out_other\":%llu,\"out_delivered\":%llu,"
           "\"max_growth_xcm\":%lld,\"max_growth_all\":%lld,\"max_peak_hs\":%lld,\"hs_peak_ref\":%lld,"
-          "\"hs_peer_ok\":%llu,\"hs_xcm_ok\":%llu,\"identity_skipped\":%llu,\"bystander_checks\":%llu,\"flights\":[%d,%d,%d,%d,%d,%d],"
+          "\"hs_peer_ok\":%llu,\"hs_xcm_ok\":%llu,\"identity_skipped\":%llu,\"bystander_checks\":%llu,\"residual_checks\":%llu,"
+          "\"max_resid_xcm\":%lld,\"max_resid_ssl\":%lld,\"flights\":[%d,%d,%d,%d,%d,%d],"
           "\"internal\":%d,\"internal_text\":\"%s\",\"sigs\":{",
           cf, (unsigned long long)a, (unsigned long long)b, (unsigned long long)S->cases,
           (unsigned long long)S->calls, (unsigned long long)S->checked, (unsigned long long)S->findings,
@@ -2111,7 +2172,8 @@ static void print_stats(uint64_t a, uint64_t b)
           (unsigned long long)S->outcome[O_DELIVERED], (long long)S->max_growth_xcm, (long long)S->max_growth_all,
           (long long)S->max_peak_hs, (long long)g_hs_peak_ref, (unsigned long long)S->hs_peer_ok,
           (unsigned long long)S->hs_xcm_ok, (unsigned long long)S->identity_skipped,
-          (unsigned long long)S->bystander_checks, g_fl_len[0], g_fl_len[1],
+          (unsigned long long)S->bystander_checks, (unsigned long long)S->residual_checks,
+          (long long)S->max_resid_xcm, (long long)S->max_resid_ssl, g_fl_len[0], g_fl_len[1],
           g_fl_len[2], g_fl_len[3], g_fl_len[4], g_fl_len[5], S->internal_err, S->internal_text);
     for (int i = 0; i < S->nsig; i++) {
         char e[420];
@@ -2237,7 +2299,7 @@ int main(int argc, char **argv)
         kase_print(g_spec, sizeof g_spec, &k);
         out_f("case %s\n", g_spec);
         if (C.fam != FAM_HSMUT) {
-            stream_build(&k.st);
+            stream_build_case(&k.st);
             struct ref r;
             ref_decode(g_sb, g_sn, &r);
             out_f("  stream: %zu bytes; reference decoder: %d message(s), then %s", g_sn, r.nmsg,
